@@ -67,3 +67,69 @@ pub fn schema_shape_splain<S: Src>(_s: &mut S) {
         _ => assert!(false),
     }
 }
+
+/// C04/C18 for library containers of Packed values: if the container type claims to be bulk-copyable at a version,
+/// its memory image must be byte-for-byte its field-by-field encoding at that version (fields in wire order, no
+/// padding, element packedness respected).
+fn packed_value_sound<T: Packed + RefEnc>(v: &T, ver: u32, what: &str) {
+    let yes = unsafe { T::repr_c_optimization_safe(ver) }.is_yes();
+    if yes {
+        let exp = ref_bytes(v, ver);
+        assert!(core::mem::size_of::<T>() == exp.len(), "C04: a bulk-copyable type has no padding and nothing that is not on the wire at this version");
+        let raw = unsafe { core::slice::from_raw_parts(v as *const T as *const u8, core::mem::size_of::<T>()) };
+        assert!(raw == &exp[..], "C04: memory image equals the field-by-field encoding (fields in wire order)");
+    }
+    let _ = what;
+}
+
+/// Tuples and arrays over primitives that rustc may reorder ((u8,bool,u8), (u32,char,u32)) or pad.
+pub fn packed_tuples_prim<S: Src>(s: &mut S) {
+    let ver = s.u32();
+    let (a, b, c) = (s.u8(), s.u8(), s.u32());
+    let flag = s.bool();
+    let ch = s.char();
+    packed_value_sound(&(a, flag, b), ver, "(u8,bool,u8)");
+    packed_value_sound(&(c, ch, c), ver, "(u32,char,u32)");
+    packed_value_sound(&(a, c), ver, "(u8,u32)");
+    packed_value_sound(&(c, a), ver, "(u32,u8)");
+    packed_value_sound(&(a, b), ver, "(u8,u8)");
+    packed_value_sound(&(a, s.u16(), b), ver, "(u8,u16,u8)");
+    packed_value_sound(&[(a, flag, b), (b, flag, a)], ver, "[(u8,bool,u8);2]");
+}
+
+/// A versioned struct (SVerOrder: fields added at versions 1 and 2) as element POS of a tuple of ARITY elements
+/// (ARITY 0 = [T;2]), at version VER <= its current one: one harness instance per (ARITY, POS, VER) keeps CBMC fast.
+pub fn packed_tuples_ver<S: Src, const ARITY: u8, const POS: u8, const VER: u32>(s: &mut S) {
+    use crate::family::Fam;
+    use crate::family_gen::SVerOrder;
+    let x = SVerOrder::sym(s);
+    let c = s.u32();
+    match (ARITY, POS) {
+        (0, _) => packed_value_sound(&[x.clone(), x], VER, "[SVerOrder;2]"),
+        (1, _) => packed_value_sound(&(x,), VER, "(SVerOrder,)"),
+        (2, 0) => packed_value_sound(&(x, c), VER, "(SVerOrder,u32)"),
+        (2, _) => packed_value_sound(&(c, x), VER, "(u32,SVerOrder)"),
+        (3, 0) => packed_value_sound(&(x, c, c), VER, "(SVerOrder,u32,u32)"),
+        (3, 1) => packed_value_sound(&(c, x, c), VER, "(u32,SVerOrder,u32)"),
+        _ => packed_value_sound(&(c, c, x), VER, "(u32,u32,SVerOrder)"),
+    }
+}
+
+/// Vec<u64> / Vec<u32> (bulk path): arbitrary 64-bit declared length with a short body: error, never a panic /
+/// overflow in `element size * length`, never more elements than the input could encode.
+pub fn mal_vec_wide_len<S: Src>(s: &mut S) {
+    let n = s.u64();
+    let body: [u8; 8] = s.bytes::<8>();
+    let mut bytes = n.to_le_bytes().to_vec();
+    bytes.extend_from_slice(&body);
+    // genuine out-of-memory on absurd lengths is excluded by the property: keep allocation sizes representable
+    s.assume(n <= 2 || n >= (1u64 << 60));
+    let mut rd: &[u8] = &bytes[..];
+    if let Ok(v) = Deserializer::bare_deserialize::<Vec<u64>>(&mut rd, 0) {
+        assert!(v.len() <= 1, "C06: never more elements than the input could have encoded");
+    }
+    let mut rd: &[u8] = &bytes[..];
+    if let Ok(v) = Deserializer::bare_deserialize::<Vec<u32>>(&mut rd, 0) {
+        assert!(v.len() <= 2, "C06: never more elements than the input could have encoded");
+    }
+}
